@@ -204,9 +204,11 @@ func TestAccounting(t *testing.T) {
 			ft := float64(rapid.IntRange(0, 4).Draw(t, "flowT"))
 			in := uint32(rapid.IntRange(1, 2).Draw(t, "isoN"))
 			if _, err := flow.LoadRules([]*flow.Rule{{Resource: "a", Threshold: ft, TokenCalculateStrategy: flow.Direct, ControlBehavior: flow.Reject},
-				{Resource: "c", Threshold: float64(rapid.IntRange(1, 4).Draw(t, "paceT")), ControlBehavior: flow.Throttling, MaxQueueingTimeMs: 0}}); err != nil {
+				{Resource: "c", Threshold: float64(rapid.IntRange(1, 4).Draw(t, "paceT")), ControlBehavior: flow.Throttling, MaxQueueingTimeMs: uint32(rapid.SampledFrom([]int{0, 2000}).Draw(t, "paceQ"))}}); err != nil {
 				t.Fatalf("flow load: %v", err)
 			}
+			hx.C.Advance = true // the single caller really sleeps the wait it is asked for
+			defer func() { hx.C.Advance = false }()
 			if _, err := isolation.LoadRules([]*isolation.Rule{{Resource: "b", MetricType: isolation.Concurrency, Threshold: in}}); err != nil {
 				t.Fatalf("isolation load: %v", err)
 			}
@@ -303,7 +305,14 @@ func TestAccounting(t *testing.T) {
 					}()
 					e, b = sentinel.Entry(res, opts...)
 				}()
-				c.Op("Entry(%s batch=%d inbound=%v args=%v flag=%#x) -> entry=%v block=%v", res, batch, inbound, args, flag, e != nil, b != nil)
+				// the pacing rule on c may have made the (single) caller sleep inside Entry: the outcome is recorded when the wait
+				// is over, the entry's response time runs from the Entry call
+				start := now
+				now = hx.C.Ms()
+				if now != start {
+					c.Class("entry-queued-inside-Entry")
+				}
+				c.Op("Entry(%s batch=%d inbound=%v args=%v flag=%#x) -> entry=%v block=%v (waited %d ms)", res, batch, inbound, args, flag, e != nil, b != nil, now-start)
 				if (e == nil) == (b == nil) {
 					t.Fatalf("Entry(%s) returned entry=%v and block=%v: not exactly one outcome", res, e, b)
 				}
@@ -330,7 +339,7 @@ func TestAccounting(t *testing.T) {
 					if sawBlock {
 						blocksThenTraffic = true
 					}
-					m := &ment{id: len(all), e: e, res: res, inbound: inbound, batch: batch, start: now, args: args, panicPass: isPanic}
+					m := &ment{id: len(all), e: e, res: res, inbound: inbound, batch: batch, start: start, args: args, panicPass: isPanic}
 					all = append(all, m)
 					if hk := rapid.IntRange(0, 5).Draw(t, "exitHandler"); hk >= 4 { // exit handlers that return (nil or an error), never panic
 						herr := error(nil)
